@@ -544,6 +544,9 @@ func execSeq[E any](c seqCase, et elemType[E]) core.Result {
 	A := col.Array[E](n)
 	S := col.Set[E](n)
 	init := r.vals(c.Init)
+	if len(init) == 0 && len(c.Ops)%2 == 0 {
+		init = nil // an empty Go array comes as an allocated empty one or as nil, in turn
+	}
 	r.model = append([]E{}, init...)
 	p, payload := lib.Call(func() {
 		if c.Coll == "list" {
